@@ -273,8 +273,8 @@ def explore_meta_closed(pid, tier, seed, model_ok=True, focus=False, scale=None)
                 if r:
                     tr = trace if which == "closed" else [(op, o) for op, o in trace if op[0] in mc.MB_OPS]
                     i = r[0]
-                    if i < 0 or i >= len(tr):
-                        ex.disagreements.append(dict(where=f"Run.MetaClosedRun.{fn}", system="meta_closed", seed=sd, cfg=cfg, detail=f"set-up failed in the model: {r}"))
+                    if len(r) != 4 or i < 0 or i >= len(tr):
+                        ex.disagreements.append(dict(where=f"Run.MetaClosedRun.{fn}", system="meta_closed", seed=sd, cfg=cfg, detail=f"mismatch vector without a valid index (set-up failed in the model, or an attribute mismatch reported by Run.MetaStakingRun.cmp_state): {r}"))
                         continue
                     ex.disagreements.append(dict(where=f"Run.MetaClosedRun.{fn}", system="meta_closed", seed=sd, cfg=cfg, index=i, field=r[1],
                                                  model=r[2], impl=r[3], op=tr[i][0], observed=strip(tr[i][1]), ops=gops[:tr[i][1]["gi"]]))
